@@ -416,7 +416,8 @@ SlL == IF Thorough THEN 6 ELSE 4
 SlParams == <<NoneP>> \o [i \in 1..(2 * SlL + 5) |-> IntP(i - SlL - 3)]
             \o <<HugeP(1, 1), HugeP(1, 2), HugeP(1, 3), HugeP(1, 4), HugeP(-1, 1), HugeP(-1, 2), HugeP(-1, 3), HugeP(-1, 4), HugeP(-1, 5)>>
 SlNP == Len(SlParams)
-SlBases == <<Identity, fA, Current>>
+(* C08t: the same window over the typed slice fields of GoValues (C []Inner, D []*Inner, E []float64, F []string; empty in some documents) *)
+SlBases == IF Family = "C08t" THEN <<fC, fD, fEe, fF>> ELSE <<Identity, fA, Current>>
 SlTotal == SlNP * SlNP * SlNP * Len(SlBases)
 SlAt(i) == LET b == SlBases[(i % Len(SlBases)) + 1]
                j == i \div Len(SlBases)
@@ -461,7 +462,7 @@ DocsPrec == {
 L1 == CASE Family = "C01" -> CoreL1 [] Family = "C03" -> PrecL1 [] Family = "C02" -> ProjL1 [] Family = "C07" -> OpL1 [] Family = "C07d" -> OpDocL1
         [] Family = "C09" -> FnL1 [] Family = "C09n" -> FnNestL1 [] Family = "C10" -> <<>> [] Family = "C10d" -> MxDocL1
         [] Family = "C10k" -> ByL1 [] Family = "C11" -> ErrL1 [] Family = "C16" -> JsonL1
-        [] Family = "C08" -> <<>> [] Family = "C08i" -> SlIdxL1 [] Family = "C06" -> RoL1 [] Family = "C15" -> MetaL1 [] Family = "C18" -> NavL1 [] Family = "C18p" -> TypedL1 [] Family = "C09big" -> FnBigL1
+        [] Family \in {"C08", "C08t"} -> <<>> [] Family = "C08i" -> SlIdxL1 [] Family = "C06" -> RoL1 [] Family = "C15" -> MetaL1 [] Family = "C18" -> NavL1 [] Family = "C18p" -> TypedL1 [] Family = "C09big" -> FnBigL1
 NS == CASE Family = "C01" -> CoreNS [] Family = "C03" -> PrecNS [] Family = "C06" -> RoNS [] Family = "C15" -> MetaNS [] Family = "C18" -> NavNS [] Family = "C02" -> ProjNS [] Family = "C07" -> OpNS [] Family = "C09" -> FnNS
         [] Family = "C09n" -> FnNestNS [] Family = "C11" -> CtxNS [] OTHER -> 0
 Dim(s) == CASE Family = "C01" -> CoreDim(s) [] Family = "C03" -> PrecDim(s) [] Family = "C06" -> RoDim(s) [] Family = "C15" -> MetaDim(s) [] Family = "C18" -> NavDim(s) [] Family = "C02" -> ProjDim(s) [] Family = "C07" -> OpDim(s) [] Family = "C09" -> FnDim(s)
@@ -470,9 +471,9 @@ Wrap(s, x, k) == CASE Family = "C01" -> CoreWrap(s, x, k) [] Family = "C03" -> P
                    [] Family = "C09" -> FnWrap(s, x, k) [] Family = "C09n" -> FnNestWrap(s, x, k) [] Family = "C11" -> CtxWrap(s, x, k)
 DocSet == CASE Family = "C01" -> DocsCore [] Family = "C03" -> DocsPrec [] Family = "C02" -> DocsProj [] Family \in {"C07", "C09", "C10", "C10k"} -> {Null}
             [] Family = "C07d" -> DocsOp [] Family = "C09n" -> DocsFnNest [] Family = "C10d" -> DocsMx [] Family = "C11" -> DocsCtx
-            [] Family = "C16" -> DocsJson [] Family \in {"C08", "C08i"} -> DocsSlice [] Family = "C06" -> DocsRo [] Family = "C15" -> DocsFnNest \cup DocsCtx [] Family \in {"C18", "C18p"} -> {J(GoDocs[i]) : i \in 1..Len(GoDocs)} [] Family = "C09big" -> DocsFnBig
+            [] Family = "C16" -> DocsJson [] Family \in {"C08", "C08i"} -> DocsSlice [] Family = "C06" -> DocsRo [] Family = "C15" -> DocsFnNest \cup DocsCtx [] Family \in {"C18", "C18p", "C08t"} -> {J(GoDocs[i]) : i \in 1..Len(GoDocs)} [] Family = "C09big" -> DocsFnBig
 (* number of wrapping levels: 1 = only L1; 2 = one Wrap; 3 = two nested Wraps *)
-Levels == CASE Family \in {"C07d", "C10d", "C10k", "C16", "C08i", "C18p", "C09big"} -> 1 [] Family = "C08" -> 0 [] Family \in {"C01", "C07", "C11", "C03", "C15"} -> 3 [] Family = "C10" -> 0 [] OTHER -> 2
+Levels == CASE Family \in {"C07d", "C10d", "C10k", "C16", "C08i", "C18p", "C09big"} -> 1 [] Family \in {"C08", "C08t"} -> 0 [] Family \in {"C01", "C07", "C11", "C03", "C15"} -> 3 [] Family = "C10" -> 0 [] OTHER -> 2
 EmitL1 == Family \notin {"C09"}
 Styles == <<StMin, StFull, StQuoted>>
 WsOf(k) == CASE k = 1 -> "tight" [] k = 2 -> "space" [] k = 3 -> "mixed"
@@ -485,7 +486,7 @@ CumDim(s) == IF s = 0 THEN 0 ELSE CumDim(s - 1) + Dim(s)
 Ctx == LET l1 == L1
            n1 == Len(l1)
            sum == CumDim(NS)
-           t1 == IF Family = "C10" THEN MxTotal ELSE IF Family = "C08" THEN SlTotal ELSE IF EmitL1 THEN n1 ELSE 0
+           t1 == IF Family = "C10" THEN MxTotal ELSE IF Family \in {"C08", "C08t"} THEN SlTotal ELSE IF EmitL1 THEN n1 ELSE 0
            t2 == IF Levels >= 2 THEN n1 * sum ELSE 0
            t3 == IF Levels >= 3 THEN n1 * sum * sum ELSE 0
        IN [l1 |-> l1, docs |-> SetToSeq(DocSet), n1 |-> n1, cum |-> [s \in 0..NS |-> CumDim(s)], sum |-> sum,
@@ -494,7 +495,7 @@ Ctx == LET l1 == L1
 WrapCode(g, o, x) == LET s == CHOOSE t \in 1..NS : g.cum[t - 1] <= o /\ o < g.cum[t] IN Wrap(s, x, o - g.cum[s - 1] + 1)
 ExprAt(g, i) ==
   IF Family = "C10" THEN MxAt(i)
-  ELSE IF Family = "C08" THEN SlAt(i)
+  ELSE IF Family \in {"C08", "C08t"} THEN SlAt(i)
   ELSE IF i < g.t1 THEN g.l1[i + 1]
   ELSE IF i < g.t1 + g.t2 THEN LET j == i - g.t1 IN WrapCode(g, j % g.sum, g.l1[(j \div g.sum) + 1])
   ELSE LET j == i - g.t1 - g.t2
